@@ -239,6 +239,21 @@ func (vc *VC) execIf(st *State, x *ast.IfStmt) *State {
 		return nil
 	}
 	cn := vc.newPC(c)
+	if vc.dry == 0 && cn != "true" && cn != "false" {
+		vc.conds = append(vc.conds, condRec{cn, len(vc.trace)})
+	}
+	if vc.oracle != nil && vc.dry == 0 {
+		// path-split mode: follow exactly one branch
+		if vc.oracle.next() {
+			st.pc = vc.newPC(and(st.pc, cn))
+			return vc.execBlock(st, x.Body.List)
+		}
+		st.pc = vc.newPC(and(st.pc, not(cn)))
+		if x.Else != nil {
+			return vc.exec(st, x.Else, "")
+		}
+		return st
+	}
 	t := st.clone()
 	t.pc = vc.newPC(and(st.pc, cn))
 	e := st.clone()
@@ -285,6 +300,17 @@ func (vc *VC) execSwitch(st *State, x *ast.SwitchStmt, label string) *State {
 			}
 		}
 		c := vc.newPC(or(conds...))
+		if vc.oracle != nil && vc.dry == 0 {
+			if vc.oracle.next() {
+				rest.pc = vc.newPC(and(rest.pc, c))
+				ends = append(ends, vc.execBlock(rest, cc.Body))
+				rest = nil
+				deflt = nil
+				break
+			}
+			rest.pc = vc.newPC(and(rest.pc, not(c)))
+			continue
+		}
 		b := rest.clone()
 		b.pc = vc.newPC(and(rest.pc, c))
 		nr := rest.clone()
@@ -299,7 +325,7 @@ func (vc *VC) execSwitch(st *State, x *ast.SwitchStmt, label string) *State {
 	}
 	if deflt != nil {
 		ends = append(ends, vc.execBlock(rest, deflt.Body))
-	} else {
+	} else if rest != nil {
 		ends = append(ends, rest)
 	}
 	ends = append(ends, fr.breaks[""]...)
@@ -592,6 +618,15 @@ func (vc *VC) bindLoopSpec(st *State, si *SpecInfo, fi *FuncInfo, pos token.Pos)
 			panic(unsupported("loop spec %s: variable %s has no value at the loop head", si.Decl.Name.Name, p.Name()))
 		}
 		set(p, v)
+		// old(p) in a loop contract: the value the function was entered with (parameters only)
+		if vc.entry != nil {
+			if ev, ok := vc.entry.vars[found]; ok {
+				if vc.loopOld == nil {
+					vc.loopOld = map[types.Object]Val{}
+				}
+				vc.loopOld[p] = ev
+			}
+		}
 	}
 	return b
 }
